@@ -18,7 +18,7 @@ prefix notation (strings that may contain spaces are `=` followed by dot-separat
   query   := "P" dummyDoc(0|1) expr
   expr    := "h" | "r" | "s" expr axis test expr expr | "t" | "p" n | "l" | "le" n | "ex" expr
            | "cg" expr n | "no" expr | "an" expr expr | "or" expr expr
-  axis    := c|d|ds|s|a|pa|an|fs|ps     test := "n" name | "*" | "nd"
+  axis    := c|d|ds|s|a|pa|an|fs|ps     test := "n" name | "*" | "nd" | "se" k name*
 
 Answer: `;`-separated records
   n<idx>|T=<type name or ~>|E=<0/1 xsd_element set>|C=<content kind x,m,e,z,s,u>|M=<model typed value>|S=<spec typed value>|K=<flags>|IM=<bits>|IS=<bits>
@@ -201,6 +201,7 @@ def pTest : P NTest
   | "n" :: n :: r => some (.name n, r)
   | "*" :: r => some (.star, r)
   | "nd" :: r => some (.node, r)
+  | "se" :: r => (pCounted pName r).map fun (ns, r) => (.schemaElem ns, r)
   | _ => none
 
 partial def pExpr : P E
